@@ -179,3 +179,25 @@ EXPECTED_COMPILER = {'CodeGenerator.visit_Call': "arguments(posonlyargs=[], args
                                 "    self.write(')')\n"
                                 '    if self.environment.is_async:\n'
                                 "        self.write('))')"}
+EXPECTED_NODES = {'Getattr.as_const': "arguments(posonlyargs=[], args=[arg(arg='self'), arg(arg='eval_ctx')], kwonlyargs=[], "
+                     'kw_defaults=[], defaults=[Constant(value=None)])\n'
+                     "if self.ctx != 'load':\n"
+                     '    raise Impossible()\n'
+                     'eval_ctx = get_eval_context(self, eval_ctx)\n'
+                     'try:\n'
+                     '    return eval_ctx.environment.getattr(self.node.as_const(eval_ctx), self.attr)\n'
+                     'except Exception as e:\n'
+                     '    raise Impossible() from e',
+ 'Getitem.as_const': "arguments(posonlyargs=[], args=[arg(arg='self'), arg(arg='eval_ctx')], kwonlyargs=[], "
+                     'kw_defaults=[], defaults=[Constant(value=None)])\n'
+                     "if self.ctx != 'load':\n"
+                     '    raise Impossible()\n'
+                     'eval_ctx = get_eval_context(self, eval_ctx)\n'
+                     'try:\n'
+                     '    obj = self.node.as_const(eval_ctx)\n'
+                     '    arg = self.arg.as_const(eval_ctx)\n'
+                     '    if isinstance(self.arg, Slice):\n'
+                     '        return obj[arg]\n'
+                     '    return eval_ctx.environment.getitem(obj, arg)\n'
+                     'except Exception as e:\n'
+                     '    raise Impossible() from e'}
